@@ -13,7 +13,7 @@
 From Coq Require Import ZArith.
 From Httoop Require Import Model.Composer Model.Http1Reader Proofs.Http1ReaderP Proofs.ComposerNum Proofs.ComposerHdrs Proofs.ComposerBody
   Proofs.ComposerFraming Proofs.ComposerRepeat Proofs.ComposerParse.
-From Httoop Require Import Model.Parser Proofs.ParserFrag Proofs.ParserBridge Proofs.RoundTrip.
+From Httoop Require Import Model.Parser Proofs.ParserFrag Proofs.ParserBridge Proofs.RoundTrip Proofs.RoundTripFrag.
 Local Open Scope N_scope.
 
 (* the two number printers of the composer are read back by CPython's int() as modelled for the parser *)
@@ -137,6 +137,45 @@ Theorem C04_any_fragmentation : forall (PC : callees) (k : kind) (wire : bytes) 
   (quiet_run PC k init frags = true -> run_keep real PC k init frags = (init, ms, None)).
 Proof. exact whole_call_any_fragmentation. Qed.
 Print Assumptions C04_any_fragmentation.
+
+(* The round trip for the machines AS IMPLEMENTED, under EVERY fragmentation of the composed octets, without any hypothesis about the
+   run: a composed message is one message with nothing behind it (the 411 peek needs octets behind a completed message) and its start
+   line contains no LF (the bare-LF fallback needs an LF before the first CRLF): C01_single_message_any_fragmentation applies. *)
+Theorem C04_request_roundtrip_fragmented : forall (C : ccallees) (PC : callees), lsplit_clean C ->
+  forall vc now q q' info content,
+  req_ok q = true -> rd_no_crlf now = true -> q_prepare now q = Some q' ->
+  no_list_fields (q_hdrs q') = true -> b_trailer (q_body q') = [] ->
+  let line := q_method q ++ SP :: q_target q ++ SP :: StartLine.proto_compose (q_version q) in
+  c_start PC line = SlOk info ->
+  (hmem H_TE (q_hdrs q') = true -> p11 info = true) -> (hmem H_TE (q_hdrs q') = false -> hget H_CE (q_hdrs q') = None) ->
+  decodes PC (q_hdrs q') (q_content C vc q) content ->
+  host_ok Server info (q_hdrs q') = true -> c_hdrs PC (p11 info) (delivered_hdrs (q_hdrs q')) = HOk -> body_allowed Server info content = true ->
+  N.of_nat (List.length (dec_of_N (N.of_nat (List.length content)))) <= INT_MAX_STR_DIGITS ->
+  exists fr, hframing (q_hdrs q') fr /\
+    forall frags, concat_bytes frags = fst (q_compose C vc q') ->
+      run_keep real PC Server init frags =
+        (init, [ {| m_line := line; m_hdrs := delivered_for fr (q_hdrs q') content; m_body := content |} ], None).
+Proof. exact request_roundtrip_fragmented. Qed.
+Print Assumptions C04_request_roundtrip_fragmented.
+
+Theorem C04_response_roundtrip_fragmented : forall (C : ccallees) (PC : callees), lsplit_clean C ->
+  forall v59 v29 vc now r r' info content,
+  resp_ok v59 r = true -> rd_no_crlf now = true -> r_prepare C v59 v29 now r = Some r' ->
+  r_bodiless (r_code r) (r_rmethod r) = false ->
+  no_list_fields (r_hdrs r') = true -> b_trailer (r_body r') = [] ->
+  let line := StartLine.proto_compose (r_version r) ++ SP :: StartLine.print_dec (r_code r) ++ SP :: r_reason r in
+  c_start PC line = SlOk info ->
+  (hmem H_TE (r_hdrs r') = true -> p11 info = true) -> (hmem H_TE (r_hdrs r') = false -> hget H_CE (r_hdrs r') = None) ->
+  decodes PC (r_hdrs r') (concat_bytes (encode_pieces C vc (b_codec (r_body r')) (r_sent_pieces r))) content ->
+  c_hdrs PC (p11 info) (delivered_hdrs (r_hdrs r')) = HOk ->
+  c_connect PC line = false ->
+  N.of_nat (List.length (dec_of_N (N.of_nat (List.length content)))) <= INT_MAX_STR_DIGITS ->
+  exists fr, hframing (r_hdrs r') fr /\
+    forall frags, concat_bytes frags = fst (r_compose C vc r') ->
+      run_keep real PC Client init frags =
+        (init, [ {| m_line := line; m_hdrs := delivered_for fr (r_hdrs r') content; m_body := content |} ], None).
+Proof. exact response_roundtrip_fragmented. Qed.
+Print Assumptions C04_response_roundtrip_fragmented.
 
 (* every field other than Content-Length / Transfer-Encoding is delivered with the (stripped) value it was composed with,
    and (requests) every field the composer does not manage is composed with the value the caller set *)
